@@ -8,6 +8,14 @@ from gen import marker_real as R
 from gen import markers as G
 from run import Prop
 
+# inputs on which the unrepaired code contradicted the statement (findings_proposed/C07.json); they run first on every check
+WITNESSES = [
+    ("eval_text_vs_reference", {"marker": "os_name == '1.0'", "env": {"os_name": "posix"}}),
+    ("eval_text_vs_reference", {"marker": "platform_release === 'posix'", "env": {"platform_release": "posix"}}),
+    ("eval_text_vs_reference", {"marker": "'1.0' <= os_name or os_name ~= '1'", "env": {"os_name": "1.0"}}),
+    ("evaluate_exception_class", {"marker": "'a' == 'b'", "env": {}}),
+    ("evaluate_exception_class", {"marker": "os_name == os_name and 'x' in 'y'", "env": None}),
+]
 RULES = ["LEFT_PARENTHESIS", "RIGHT_PARENTHESIS", "QUOTED_STRING", "OP", "BOOLOP", "IN", "NOT", "VARIABLE", "WS", "END"]
 
 
@@ -34,6 +42,8 @@ class C07(Prop):
 
     # ---- correspondence
     def gen_cases(self, rng, n):
+        for _law, inp in WITNESSES:
+            yield R.case_eval(inp["marker"], inp["env"])
         for _ in range(n):
             pool = G.make_pool(rng)
             tree = G.formula(rng, pool)
@@ -92,6 +102,7 @@ class C07(Prop):
 
     # ---- laws on the real code
     def gen_laws(self, rng, n):
+        yield from WITNESSES
         k = 0
         while k < n:
             pool = G.make_pool(rng)
